@@ -51,6 +51,7 @@ int32_t psRsaParseAsnPubKey(psPool_t *pool,
     const unsigned char *p = *pp;
     const unsigned char *end;
     psSize_t keylen, seqlen;
+    int32_t rc;
 
     if (len < 1 || (*(p++) != ASN_BIT_STRING) ||
         getAsnLength(&p, len - 1, &keylen) < 0 ||
@@ -84,10 +85,13 @@ int32_t psRsaParseAsnPubKey(psPool_t *pool,
     }
 
     end = p + seqlen;
-    if (pstm_read_asn(pool, &p, (uint16_t) (end - p), &key->N) < 0 ||
-        pstm_read_asn(pool, &p, (uint16_t) (end - p), &key->e) < 0)
+    if ((rc = pstm_read_asn(pool, &p, (uint16_t) (end - p), &key->N)) < 0 ||
+        (rc = pstm_read_asn(pool, &p, (uint16_t) (end - p), &key->e)) < 0)
     {
-
+        if (rc == PS_MEM_FAIL)
+        {
+            return rc; /* out of memory is not a malformed key */
+        }
         goto L_FAIL;
     }
     key->size = pstm_unsigned_bin_size(&key->N);
